@@ -157,8 +157,8 @@ theorem conversions_preserve_sequence (z : Bool) (env : Env) (w : W) (s : Nat) (
     (∀ cap, w.slots[s]? = some (.vec cs cap) →
       OnlySlotV w (step z env (.intoBoxedSlice s) w) s (.slice cs (some cap)) [] [] ∧
       OnlySlotV w (step z env (.fromVec s) w) s (.slice cs (some cap)) [] []) ∧
-    (∀ cap, w.slots[s]? = some (.slice cs (some cap)) →
-      OnlySlot w (step false env (.sliceToVec s) w) s (.vec cs cap) [] []) :=
+    (∀ cap, w.slots[s]? = some (.slice cs cap) →
+      OnlySlot w (step false env (.sliceToVec s) w) s (.vec cs cs.length) [] []) :=
   ⟨fun cap h => (arr_to_slice_spec z env w s cs cap h).1,
    fun cap n h hn => ⟨(slice_to_arr_spec z env w s n cs cap h hn).1, (slice_to_arr_spec z env w s n cs cap h hn).2.1⟩,
    fun cap h => into_boxed_slice_spec z env w s cs cap h,
